@@ -258,6 +258,8 @@ def run_other(task):
     viols = []
     n = 0
     for label, ov in ovs:
+        if label in ("line-numbers", "side-by-side") and name.endswith(("-after-hunk-header", "-after-changed-lines")):
+            continue    # (streams with hunk lines: the line-number gutter is one of the overrides the statement names)
         o = base_opts(dict(ov))
         o["color-only"] = True
         args = build_args(o)
@@ -302,6 +304,13 @@ OTHER = [
     ("word-diff-header-lookalike", ["git", "diff", "--word-diff"],
      b"diff --git a/t.sh b/t.sh\nindex 1111111..2222222 100644\n--- a/t.sh\n+++ b/t.sh\n@@ -1,2 +1,2 @@\ndiff -u expected actual\n"
      b"echo [-old-]{+new+}\n@@ -7,2 +7,2 @@\ncommit the result\n[-a-]{+b+}\n@@ -17 +17 @@\nSubmodule x\n@@ -27 +27 @@\nold mode is kept\n"),
+    # hand-assembled patches: a file header line directly after a hunk header or after removed/added lines
+    ("header-after-hunk-header", None,
+     b"--- a/x\n+++ b/x\n@@ -1,0 +1,0 @@\n--- a/y\n+++ b/y\n@@ -1 +1 @@\n-p\n+q\n"),
+    ("mode-lines-after-changed-lines", None,
+     b"diff --git a/x b/x\n--- a/x\n+++ b/x\n@@ -1 +1 @@\n-p\n+q\nold mode 100644\nnew mode 100755\n"),
+    ("file-operation-after-changed-lines", None,
+     b"--- a/x\n+++ b/x\n@@ -1 +1 @@\n-p\n+q\ndeleted file mode 100644\n--- a/y\n+++ /dev/null\n@@ -1 +0,0 @@\n-z\n"),
     ("word-diff-coloured", ["git", "log", "-p", "--color-words"],
      b"\x1b[1mdiff --git a/f.txt b/f.txt\x1b[m\n\x1b[1m--- a/f.txt\x1b[m\n\x1b[1m+++ b/f.txt\x1b[m\n\x1b[36m@@ -1,2 +1,2 @@\x1b[m\n"
      b"Intro\nthe \x1b[31mold\x1b[m\x1b[32mnew\x1b[m text\n"),
